@@ -287,6 +287,33 @@ func streamConv() {
 			}
 		}
 	}
+	// a chord heard before and after a key change, for ordered pairs of keys (all 756 in the thorough tier; the
+	// enharmonic twins, same-letter and relative/parallel pairs always): nothing remembered about a chord may survive
+	// the change of key
+	{
+		special := func(a, b string) bool {
+			ta, tb := strings.TrimSuffix(a, "m"), strings.TrimSuffix(b, "m")
+			twins := map[string]string{"C#": "Db", "Db": "C#", "F#": "Gb", "Gb": "F#", "B": "Cb", "Cb": "B", "D#": "Eb", "Eb": "D#", "G#": "Ab", "Ab": "G#", "A#": "Bb", "Bb": "A#"}
+			return ta[:1] == tb[:1] || twins[ta] == tb
+		}
+		roots := rootSpellings()
+		for _, k1 := range keys28 {
+			for _, k2 := range keys28 {
+				if k1 == k2 || !(thorough() || special(k1, k2) || r.Intn(12) == 0) {
+					continue
+				}
+				x := roots[r.Intn(len(roots))]
+				y := roots[r.Intn(len(roots))]
+				tonic := strings.TrimSuffix(k1, "m")
+				for _, piece := range []string{
+					fmt.Sprintf("%s[1] %s[1]{key=%s} %s[1] %s[1]", x, x, k2, y, x),
+					fmt.Sprintf("%s[1] %s/%s[1] R[1]{key=%s} %s[1] %s/%s[1] %s[1]", tonic, x, y, k2, tonic, x, y, strings.TrimSuffix(k2, "m")),
+				} {
+					cases = append(cases, convCase{"syllable", k1, []byte(piece)})
+				}
+			}
+		}
+	}
 	for i := 0; i < pick(1500, 20000); i++ {
 		txt := []byte(genChordText(r, r.Intn(4) == 0))
 		if r.Intn(10) == 0 {
@@ -443,7 +470,21 @@ func runWrite(idx int, c writeCase, sub ...string) (string, []byte) {
 		if len(c.attrs) > 0 {
 			args = append(args, "--attr", filepath.Join(dir, "attr.yml"))
 		}
-		if len(c.chords) > 0 {
+		switch {
+		case len(c.chords) >= 2 && idx%3 == 1:
+			// the same definitions in two files (a later file may define what an earlier one builds on); the files
+			// are read in the order given and form one dictionary
+			cut := 1 + idx%(len(c.chords)-1)
+			_, ch1 := dictYAML(nil, c.chords[:cut])
+			_, ch2 := dictYAML(nil, c.chords[cut:])
+			must(os.WriteFile(filepath.Join(dir, "chord1.yml"), []byte(ch1), 0o644))
+			must(os.WriteFile(filepath.Join(dir, "chord2.yml"), []byte(ch2), 0o644))
+			if idx%2 == 0 {
+				args = append(args, "--chord", filepath.Join(dir, "chord1.yml"), "--chord", filepath.Join(dir, "chord2.yml"))
+			} else {
+				args = append(args, "--chord", filepath.Join(dir, "chord1.yml")+","+filepath.Join(dir, "chord2.yml"))
+			}
+		case len(c.chords) > 0:
 			args = append(args, "--chord", filepath.Join(dir, "chord.yml"))
 		}
 	}
@@ -484,6 +525,9 @@ var longNames = []string{"MajorTriad", "MinorTriad", "DominantSeventh", "MajorSe
 func sp(s string) *string { return &s }
 
 func genValue(r *rand.Rand, adversarial bool) string {
+	if !adversarial && r.Intn(25) == 0 { // at and below the resolution of one tick, and zero-padded spellings
+		return []string{"1/1919", "1/1920", "1/1921", "1/2000", "1/4000", "1/960", "3/5761", "1/100000", "01", "001/004", "010/08", "0016/0032"}[r.Intn(12)]
+	}
 	if !adversarial {
 		switch r.Intn(4) {
 		case 0:
@@ -518,6 +562,9 @@ func genInstance(r *rand.Rand, malformed bool) rawInstance {
 	}
 	if r.Intn(5) == 0 {
 		i.bpm = sp(fmt.Sprint(4 + r.Intn(400)))
+		if r.Intn(8) == 0 { // zero-padded numbers are decimal numbers
+			i.bpm = sp([]string{"0100", "0120", "007", "090", "0010", "00200"}[r.Intn(6)])
+		}
 	}
 	if r.Intn(5) == 0 {
 		i.velocity = sp([]string{"pp", "p", "mp", "mf", "f", "ff"}[r.Intn(6)])
@@ -606,6 +653,22 @@ func genWriteCase(r *rand.Rand) writeCase {
 			}
 		}
 	}
+	if r.Intn(5) == 0 && n >= 2 && bad < 0 {
+		// the same chords again after a key change carried by a chord, by a rest, or by nothing: whatever is remembered
+		// from the first time must not be reused in the new key
+		k := sp(keys28[r.Intn(28)])
+		again := append([]rawInstance{}, c.is...)
+		for i := range again {
+			again[i].key = nil
+		}
+		switch r.Intn(3) {
+		case 0:
+			again[0].key = k
+		case 1:
+			again = append([]rawInstance{{values: []string{"1"}, key: k}}, again...)
+		}
+		c.is = append(c.is, again...)
+	}
 	if r.Intn(4) == 0 {
 		c.flags.key = keys28[r.Intn(28)]
 	}
@@ -663,6 +726,11 @@ func streamWrite() {
 		one(rawInstance{chord: &rawChord{degree: sp("1"), name: "m"}, values: []string{"1"}, key: sp("E#")}),
 		one(rawInstance{chord: &rawChord{degree: sp("99999999999"), name: "m"}, values: []string{"1"}}),
 		writeCase{flags: writeFlags{track: 1, instrument: "Piano"}},
+		// texts made of white space only are texts
+		writeCase{flags: writeFlags{track: 1, instrument: "Piano"}, is: []rawInstance{
+			{chord: &rawChord{degree: sp("1"), name: ""}, values: []string{"1"}}, {values: []string{"1"}},
+			{chord: &rawChord{degree: sp("5"), name: ""}, values: []string{"1"}, meta: &[][2]string{{"txt", " "}, {"lic", "\u3000"}, {"mrk", "\n"}}},
+			{chord: &rawChord{degree: sp("1"), name: ""}, values: []string{"1"}, meta: &[][2]string{{"txt", "\t"}, {"lic", "\u00a0"}, {"mrk", "  "}}}}},
 		one(rawInstance{chord: &rawChord{degree: sp("1"), name: "m"}, values: []string{"1"}, key: sp("B♭")}),
 		one(rawInstance{chord: &rawChord{degree: sp("1"), name: "m"}, values: []string{"1"}, key: sp("F♯m")}),
 		writeCase{flags: writeFlags{track: 1, instrument: "Piano", key: "E♭m"}, is: []rawInstance{{chord: &rawChord{degree: sp("1"), name: "m"}, values: []string{"1"}}}},
@@ -675,6 +743,18 @@ func streamWrite() {
 		one(rawInstance{values: []string{"4473925"}}),
 		one(rawInstance{values: []string{"99999999999"}}),
 		one(rawInstance{chord: &rawChord{degree: sp("1"), name: ""}, values: []string{"18446744073709551615"}}),
+		writeCase{flags: writeFlags{track: 1, instrument: "Piano"}, is: []rawInstance{
+			{values: []string{"268435453/960"}}, {values: []string{"1/1600"}}, {values: []string{"1/1600"}}, {values: []string{"1/1600"}}}},
+		writeCase{flags: writeFlags{track: 2, instrument: "Piano"}, is: []rawInstance{
+			{chord: &rawChord{degree: sp("1"), name: ""}, values: []string{"268435453/960"}}, {values: []string{"1/1600"}}, {values: []string{"1/1600"}},
+			{chord: &rawChord{degree: sp("5"), name: ""}, values: []string{"1/1600"}}}},
+		writeCase{flags: writeFlags{track: 2, instrument: "Piano"}, is: []rawInstance{
+			{chord: &rawChord{degree: sp("1"), name: ""}, values: []string{"150000"}}, {chord: &rawChord{degree: sp("5"), name: ""}, values: []string{"150000"}}}},
+		writeCase{flags: writeFlags{track: 1, instrument: "Piano"}, is: []rawInstance{
+			{values: []string{"150000"}}, {values: []string{"150000"}}, {chord: &rawChord{degree: sp("5"), name: ""}, values: []string{"1"}}}},
+		writeCase{flags: writeFlags{track: 1, instrument: "Piano"}, is: []rawInstance{
+			{values: []string{"1"}}, {chord: &rawChord{degree: sp("1"), name: ""}, values: []string{"1/4000"}},
+			{chord: &rawChord{degree: sp("5"), name: "7"}, values: []string{"1"}}, {values: []string{"1/2"}}}},
 		writeCase{flags: writeFlags{track: 3, instrument: "Piano"}, is: []rawInstance{
 			{values: []string{"200000"}}, {values: []string{"79620"}}, {chord: &rawChord{degree: sp("1"), name: ""}, values: []string{"1/4"}}}},
 		writeCase{flags: writeFlags{track: 3, instrument: "Piano"}, is: []rawInstance{
@@ -835,6 +915,11 @@ func genDict(r *rand.Rand) ([]rawAttr, []rawChordDef, []string) {
 			c.extends = parents[r.Intn(len(parents))]
 			c.attrs = []string{attrNames[r.Intn(len(attrNames))]}
 		}
+		if r.Intn(3) == 0 && bn[1] != "" && c.display != bn[1] {
+			// the new definition builds on the one it replaces, reached through the old symbol
+			c.extends = bn[1]
+			c.attrs = []string{attrNames[r.Intn(len(attrNames))]}
+		}
 		chords = append(chords, c)
 		queries = append(queries, bn[0], bn[1], c.display)
 	}
@@ -888,6 +973,10 @@ func streamDict() {
 	var cases []writeCase
 	for i := 0; i < pick(600, 8000); i++ {
 		attrs, chords, queries := genDict(r)
+		if len(chords) >= 2 && r.Intn(3) == 0 { // children before their parents (and, split over two files, in an earlier file)
+			k := 1 + r.Intn(len(chords)-1)
+			chords = append(append([]rawChordDef{}, chords[k:]...), chords[:k]...)
+		}
 		c := writeCase{flags: writeFlags{track: 1, instrument: "Piano"}, attrs: attrs, chords: chords}
 		q := queries[r.Intn(len(queries))]
 		c.is = []rawInstance{{chord: &rawChord{degree: sp("1"), name: q}, values: []string{"1"}}}
